@@ -543,7 +543,7 @@ def native_findings(limit_len=5):
                     if ch == 'L':
                         o_lines.append('old%d' % i)
                     elif ch == 'R':
-                        f_lines.append('new<%d>' % i if i % 2 else '')
+                        f_lines.append(['a < b', 'new<%d>' % i, '', 'x & y', 'say "hi"', "it's", 'p -> q'][(i + k) % 7])
                     else:
                         o_lines.append('same%d' % i)
                         f_lines.append('same%d' % i)
@@ -553,7 +553,11 @@ def native_findings(limit_len=5):
                 o_lines, f_lines = orig.split('\n'), fmt.split('\n')
                 for c in (0, 1, 3):
                     n += 1
-                    hunks = rp.call({'op': 'make_diff', 'original': orig, 'formatted': fmt, 'context': c})['hunks']
+                    resp = rp.call({'op': 'make_diff', 'original': orig, 'formatted': fmt, 'context': c})
+                    if 'hunks' not in resp:
+                        findings.append('make_diff panics on %r -> %r ctx %d: %s' % (o_lines, f_lines, c, resp.get('panic')))
+                        continue
+                    hunks = resp['hunks']
                     if (len(hunks) == 0) != (o_lines == f_lines):
                         findings.append('emptiness: %r -> %r ctx %d gives %d hunks' % (o_lines, f_lines, c, len(hunks)))
                     prev_o = prev_f = 0
@@ -595,6 +599,11 @@ def native_findings(limit_len=5):
                     if b['expected'] and b['expected_end_line'] != b['expected_begin_line'] + b['expected'].count('\n') - 1:
                         findings.append('json expected_end_line wrong: %r' % (b,))
                 xml = rp.call({'op': 'emit_pair', 'mode': 'checkstyle', 'original': orig, 'formatted': fmt})['out']
+                try:
+                    import xml.etree.ElementTree as ET
+                    ET.fromstring(xml)
+                except Exception as e:
+                    findings.append('checkstyle document is not well-formed XML (%s) for formatted lines %r' % (e, f_lines))
                 for m in re.finditer(r'<error line="(\d+)" severity="warning" message="Should be `([^"]*)`" />', xml):
                     li = int(m.group(1))
                     msg = m.group(2).replace('&lt;', '<').replace('&gt;', '>').replace('&quot;', '"').replace('&apos;', "'").replace('&amp;', '&')
